@@ -43,6 +43,10 @@ func runC03(c *an.Ctx) {
 	r046(c, "R03.15")
 	r165held(c, "R03.15") // the reference of the equivalence test follows what was delivered (shared with R16.5)
 	c.Min("R03.15", 2)
+	r1418(c, "R03.16") // an aggregate's subscription is folded from unfiltered items: read options are applied once (shared with R14.18)
+	c.Min("R03.16", 2)
+	r062filters(c, "R03.17") // the projected copy of a change keeps id, type and times: a masked stream folds to the masked listing (shared with R06.2)
+	c.Min("R03.17", 2)
 	r109(c, "R03.12") // what Bus.Send makes of listener.send's two results (shared with R10.9)
 	c.Min("R03.12", 3)
 	r031(c)
